@@ -223,8 +223,12 @@ func isolationCase(c *Ctx) {
 				}
 				if target >= 0 {
 					if h2, err := structs[target].kind.attach(structs[target].mk); err == nil && h2 != nil {
-						safely(func() { s.kind.eq.impInto(h2, doc) })
+						var ierr error
+						safely(func() { ierr = s.kind.eq.impInto(h2, doc) })
 						c.op("import-into-attached-handle")
+						if ierr == nil {
+							cp = h2 // from now on a structure of its own, under the keys the import created
+						}
 					}
 				} else {
 					safely(func() { cp, _ = s.kind.eq.imp(c, doc) })
